@@ -147,7 +147,7 @@ func gossipMain(id string, args []string) int {
 		return 0
 	}
 	rep := common.NewReport(id, "model_checking")
-	deadline := common.Deadline(240*time.Second, 60*time.Minute)
+	deadline := common.Deadline(240*time.Second, 30*time.Minute)
 	total := &space.Stats{Exhaustive: true, Counters: map[string]int{}, PerKind: map[string]int{}, Results: map[string]int{}}
 	perRun := map[string]any{}
 	terminated := 0
